@@ -423,6 +423,7 @@ func Run(c *core.Ctx, replay string) (*core.Result, error) {
 			o := absprog.Full()
 			o.UnexportedMembers = rng.Intn(2) == 0
 			o.Generics = true
+			o.OddEnumValues = true
 			o.NStructs = 1 + rng.Intn(5)
 			o.DashTags = true
 			add(absprog.Random(id, rng, o), rng.Intn(3) == 0)
